@@ -266,9 +266,13 @@ pub fn eval(expr: Node) -> Result<Decimal, Box<dyn error::Error>> {
             }
             Ok(x)
         }
-        Sqrt(sub_expr) => match eval(*sub_expr)?.sqrt() {
-            Some(result) => Ok(result),
-            None => Err("Unable to compute the square root of negative number".into()),
+        // abs() drops the sign of a negative zero, which sqrt() would reject as negative
+        Sqrt(sub_expr) => match eval(*sub_expr)? {
+            x if x.is_zero() => Ok(x.abs()),
+            x => match x.sqrt() {
+                Some(result) => Ok(result),
+                None => Err("Unable to compute the square root of negative number".into()),
+            },
         },
         Root(n_th_expr, x_expr) => {
             let x = eval(*x_expr)?;
